@@ -32,6 +32,8 @@ def arr_info(t, alias):
         if c is None:
             c = _suffix_lookup(EXTRA_ARRAYS, fl[-1])
         v = _suffix_lookup(VALUE_CLASS, fl[-1])
+        if any(x.endswith("ILLlpdata::sos") for x in fl[:-1]) and fl[-1].endswith("ILLmatrix::matind"):
+            v = STRUCT              # the SOS sets are stored as a matrix whose "row" indices are structural column numbers
         return c, v, fl[-1].split("::")[1]
     t = strip(t)
     if is_var(t, kind="l") and t[2] in alias:
@@ -39,7 +41,7 @@ def arr_info(t, alias):
     return None, None, None
 
 
-def analyse(prog, f):
+def analyse(prog, f, param_classes=None, callargs=None):
     # local array aliases: p = lp->O->structmap
     cand = collections.defaultdict(set)
     for b, i, e in f.elements():
@@ -218,6 +220,10 @@ def analyse(prog, f):
                 a = strip(a)
                 if isinstance(a, list) and a and a[0] == "u" and a[1] == "&" and is_var(a[2]):
                     cls[strip(a[2])[2]].add("?")
+    # an int parameter that receives an index of one and the same space at every call site of the program (computed by run())
+    for pn, pc in (param_classes or {}).items():
+        if pn not in cls or cls[pn] == {"?"}:
+            cls[pn] = {pc}
     typed = {n: list(v)[0] for n, v in cls.items() if len(v) == 1 and list(v)[0] != "?"}
 
     # loops: header block -> (body blocks, bounded variable classes)
@@ -281,6 +287,49 @@ def analyse(prog, f):
                 return bound[v]
         return None
     cur_block = [None]
+    cur_idx = [None]
+
+    def reaching_class(bid, name):
+        """class of a variable that is re-used for several index spaces in one function: the classes of the assignments that reach
+        the block (backward search; an element loaded from a map, or a copy of a typed variable)"""
+        seen, wl, out = set(), [bid], set()
+        first = True
+        while wl:
+            x = wl.pop()
+            if x in seen:
+                continue
+            seen.add(x)
+            found = None
+            es = f.blocks[x]["e"]
+            if first and x == bid:
+                es = es[:cur_idx[0]] if cur_idx[0] is not None else []
+                seen.discard(x)               # the block can be reached again over a back edge: then all of it counts
+            if True:
+                for e in reversed(es):
+                    rhs = None
+                    if e[0] == "A" and e[1][1] == "=" and is_var(e[1][2], name=name):
+                        rhs = e[1][3]
+                    elif e[0] == "D":
+                        for n2, init in e[1]:
+                            if n2 == name and init is not None:
+                                rhs = init
+                    if rhs is not None:
+                        found = rhs
+                        break
+            first = False
+            if found is not None:
+                r = strip(found)
+                if isinstance(r, list) and r and r[0] == "i":
+                    out.add(arr_info(r[1], alias)[1])
+                elif is_var(r):
+                    out.add(typed.get(r[2]))
+                else:
+                    out.add(None)
+                continue
+            if x == f.entry:
+                out.add(None)
+            wl.extend(preds[x])
+        return list(out)[0] if len(out) == 1 else None
 
     def eclass(t):
         t = strip(t)
@@ -288,11 +337,25 @@ def analyse(prog, f):
             lc = loop_class(cur_block[0], t[2])
             if lc:
                 return lc
-            return typed.get(t[2])
+            if t[2] in typed:
+                return typed[t[2]]
+            if t[2] in cls and cur_block[0] is not None:
+                return reaching_class(cur_block[0], t[2])
+            return None
         if isinstance(t, list) and t and t[0] == "i":
             c, v, fld = arr_info(t[1], alias)
             return v
         return None
+    if callargs is not None:
+        for b, i, c in f.calls():
+            g = prog.resolve(f, c[1]) if c[1] else None
+            if g is None or not g.blocks:
+                continue
+            cur_block[0] = b["id"]
+            cur_idx[0] = i
+            for k, a in enumerate(c[3]):
+                if k < len(g.params) and g.params[k][1].replace("const ", "").strip() == "int":
+                    callargs.append((g.key, k, eclass(a) if const_of(a) is None else "const"))
     uses = []
     for b, i, e in f.elements():
         if e[0] != "S":
@@ -305,9 +368,41 @@ def analyse(prog, f):
         if c is None:
             continue
         cur_block[0] = b["id"]
+        cur_idx[0] = i
         ic = eclass(e[1][2])
         uses.append((e[2], fld, show(e[1][2]), c, ic))
     return uses
+
+
+def _param_classes(prog):
+    """fkey -> {param name: class}: an int parameter of a function that is only called directly (static, or never address-taken) and
+    receives an index of one and the same space at every call site; computed over all units (cached on the program)"""
+    cached = getattr(prog, "_idxclass_pcls", None)
+    if cached is not None:
+        return cached
+    args = []
+    for f in prog.funcs.values():
+        if f.live is None or not f.unit.startswith("qsopt_ex/") or "_dbl." in f.unit or "_mpf." in f.unit:
+            continue
+        if any(u in f.unit for u in OUT_OF_SCOPE_UNITS):
+            continue
+        analyse(prog, f, callargs=args)
+    per = collections.defaultdict(set)
+    for (gk, k, c) in args:
+        per[(gk, k)].add(c)
+    out = collections.defaultdict(dict)
+    taken = getattr(prog, "addr_taken", ())
+    for (gk, k), cs in per.items():
+        g = prog.funcs.get(gk)
+        if g is None or g.name in taken or not g.static:
+            continue
+        if len(cs) == 1 and list(cs)[0] in (ROW, STRUCT, COL):
+            out[gk][g.params[k][0]] = list(cs)[0]
+    try:
+        prog._idxclass_pcls = out
+    except Exception:
+        pass
+    return out
 
 
 def run(prog, scope_units=None, rule="R-IDXCLASS", exceptions=EXCEPT):
@@ -315,6 +410,8 @@ def run(prog, scope_units=None, rule="R-IDXCLASS", exceptions=EXCEPT):
                            "(structural -> internal only through structmap[], row -> logical only through rowmap[])")
     n_typed = 0
     groups = collections.OrderedDict()
+    PCLS = _param_classes(prog)
+    res.counts["int_parameters_typed_from_their_call_sites"] = sum(len(v) for v in PCLS.values())
     for f in sorted(prog.funcs.values(), key=lambda x: x.key):
         if not f.unit.startswith("qsopt_ex/") or "_dbl." in f.unit or "_mpf." in f.unit:
             continue
@@ -322,7 +419,7 @@ def run(prog, scope_units=None, rule="R-IDXCLASS", exceptions=EXCEPT):
             continue
         if any(u in f.unit for u in OUT_OF_SCOPE_UNITS):
             continue
-        for loc, fld, itxt, need, have in analyse(prog, f):
+        for loc, fld, itxt, need, have in analyse(prog, f, param_classes=PCLS.get(f.key)):
             res.obligations += 1
             if have is None:
                 continue
